@@ -100,6 +100,8 @@ def run_one(lines, schedule, horizon, trace=None):
                 name = req[1].split(":")[0].strip()
                 if name in WRITERS:
                     exempt.add(WRITERS[name])
+                    if name == "Set1":
+                        exempt.add("Out4")          # Set1 drives Out4 as well (harness UOD)
         ob = run.tick()
         pre, post = ob["pre_flags"], ob["flags"]
         mem = ob["mem"]
